@@ -1070,3 +1070,75 @@ pub fn make_compilable(def: &mut Def, me: usize) {
         }
     }
 }
+
+/// Hand-written programs with recursive types that can terminate (an enum with a leaf variant, an
+/// `Option<Box<..>>`), referenced several times from one root and through containers: the shapes
+/// on which recursion protection that only works on the *first* visit of a type shows.
+pub fn recursive_gallery() -> Vec<Program> {
+    let nf = |n: &str, t: Ty| FieldDecl { name: Some(n.into()), ty: t, compact: false, skip: false, docs: vec![] };
+    let uf = |t: Ty| FieldDecl { name: None, ty: t, compact: false, skip: false, docs: vec![] };
+    let var = |n: &str, fields: Vec<FieldDecl>| VariantDecl {
+        name: n.into(),
+        index: None,
+        style: if fields.is_empty() { Style::Unit } else if fields[0].name.is_some() { Style::Named } else { Style::Unnamed },
+        fields,
+        docs: vec![],
+    };
+    let def = |name: &str, params: Vec<&str>, kind: DefKind| Def {
+        module: vec!["rec".into()],
+        name: name.into(),
+        params: params.into_iter().map(|p| ParamDecl { name: p.into(), skipped: false, cfg: false, uint: false }).collect(),
+        kind,
+        docs: vec![],
+    };
+    let prog = |defs: Vec<Def>, roots: Vec<Ty>| Program { krate: "krate".into(), defs, markers: vec![], roots, prefix: vec![] };
+    let d = |i: usize| Ty::Def(i, vec![]);
+    let bx = |t: Ty| Ty::Box(t.b());
+    vec![
+        // a ternary tree, used twice
+        prog(
+            vec![
+                def("Tree", vec![], DefKind::Enum(vec![var("Leaf", vec![]), var("Node", vec![uf(bx(d(0))), uf(bx(d(0))), uf(bx(d(0)))])])),
+                def("Forest", vec![], DefKind::Struct(Style::Named, vec![nf("first", d(0)), nf("second", d(0))])),
+            ],
+            vec![d(1)],
+        ),
+        // a list, inside a Vec and once more directly
+        prog(
+            vec![
+                def("List", vec![], DefKind::Enum(vec![var("Nil", vec![]), var("Cons", vec![uf(Ty::Prim(Prim::U8)), uf(bx(d(0)))])])),
+                def("Holder", vec![], DefKind::Struct(Style::Named, vec![nf("xs", Ty::Vec(d(0).b())), nf("again", d(0)), nf("arr", Ty::Array(d(0).b(), 3))])),
+            ],
+            vec![d(1)],
+        ),
+        // a binary node terminating through Option
+        prog(
+            vec![
+                def("Node", vec![], DefKind::Struct(Style::Named, vec![nf("l", Ty::Option(bx(d(0)).b())), nf("r", Ty::Option(bx(d(0)).b())), nf("v", Ty::Prim(Prim::U16))])),
+                def("Two", vec![], DefKind::Struct(Style::Unnamed, vec![uf(d(0)), uf(d(0)), uf(Ty::Tuple(vec![d(0), d(0)]))])),
+            ],
+            vec![d(1)],
+        ),
+        // mutual recursion through a Vec and two optional boxes
+        prog(
+            vec![
+                def("A", vec![], DefKind::Struct(Style::Named, vec![nf("bs", Ty::Vec(d(1).b()))])),
+                def("B", vec![], DefKind::Enum(vec![var("Stop", vec![]), var("Go", vec![nf("x", bx(d(0))), nf("y", bx(d(0)))])])),
+                def("Both", vec![], DefKind::Struct(Style::Named, vec![nf("a1", d(0)), nf("a2", d(0)), nf("b", d(1))])),
+            ],
+            vec![d(2)],
+        ),
+        // generic recursion, two uses of one instantiation
+        prog(
+            vec![
+                def(
+                    "GTree",
+                    vec!["T"],
+                    DefKind::Enum(vec![var("Leaf", vec![uf(Ty::Param(0))]), var("Node", vec![uf(Ty::Vec(Ty::Def(0, vec![Ty::Param(0)]).b())), uf(bx(Ty::Def(0, vec![Ty::Param(0)])))])]),
+                ),
+                def("Wrap", vec![], DefKind::Struct(Style::Named, vec![nf("a", Ty::Def(0, vec![Ty::Prim(Prim::U8)])), nf("b", Ty::Def(0, vec![Ty::Prim(Prim::U8)])), nf("c", Ty::Def(0, vec![Ty::Str]))])),
+            ],
+            vec![d(1)],
+        ),
+    ]
+}
